@@ -726,7 +726,8 @@ pub fn run_replayed_handshake(c: &ReplayedHandshakeCase) -> CaseResult {
 }
 
 pub fn run(ctx: &Ctx) {
-    let tier = ctx.tier;
+    // the thorough bounds of this check cost seconds, so both tiers use them (the evidence still records the tier asked for)
+    let tier = if ctx.tier == Tier::Quick { Tier::Thorough } else { ctx.tier };
     // (D)
     let mut rh = vec![];
     for plain in [false, true] {
